@@ -46,6 +46,14 @@ const NumAccounts = 10
 const NumDidKeys = 12
 const FeeDenom = "umed"
 const WhaleDenom = "uwhale"
+
+// two denominations whose whole supply (2^255 each) sits with one account
+const (
+	GiantDenomA = "ugiant"
+	GiantDenomB = "ibc/FFFFFFFFFFFFFFFFFFFFFFFFFFFFFFFFFFFFFFFFFFFFFFFFFFFFFFFFFFFFFFFF"
+	GiantHolder = 2
+	GiantAmount = "57896044618658097711785492504343953926634992332820282019728792003956564819968" // 2^255
+)
 const BurnAddress = "panacea100000000000000000000000000000000nqmafp" // documented burn address
 
 type Account struct {
@@ -179,6 +187,13 @@ func (e *Env) BuildGenesis(a *app.App, gs *GenesisSpec) ([]byte, *Model) {
 				// a denomination with a single holder and a small supply: all of it can end up at the burn address
 				if acc.Idx == SoleHolder {
 					cs = cs.Add(sdk.NewInt64Coin(d, SoleSupply))
+				}
+				continue
+			}
+			if d == GiantDenomA || d == GiantDenomB {
+				if acc.Idx == GiantHolder {
+					amt, _ := sdk.NewIntFromString(GiantAmount)
+					cs = cs.Add(sdk.NewCoin(d, amt))
 				}
 				continue
 			}
